@@ -265,9 +265,39 @@ pub fn observe(x: &Hw, t: u32) -> Value {
     }
 }
 
+thread_local! {
+    static SET_ORDER: std::cell::Cell<u32> = const { std::cell::Cell::new(0) };
+}
+
+/// The same SET of processors reaches the library in different ways (per thread, in turn): filtered out of all processors
+/// (grouped by memory region, ascending), or named one by one with take_exact in the caller's order - descending, or
+/// "sandwiched": first and last processor from one memory region, the processors of the other regions in between.
 fn set_of(x: &Hw, ids: &[u32]) -> ProcessorSet {
     let want: BTreeSet<u32> = ids.iter().copied().collect();
-    x.hw.all_processors().filter(|p| want.contains(&p.id())).expect("harness: stimulus names processors of the instance")
+    let all = x.hw.all_processors();
+    let variant = SET_ORDER.with(|c| {
+        c.set(c.get() + 1);
+        c.get() % 3
+    });
+    if variant == 0 {
+        return all.filter(|p| want.contains(&p.id())).expect("harness: stimulus names processors of the instance");
+    }
+    let mut procs: Vec<_> = all.processors().iter().filter(|p| want.contains(&p.id())).cloned().collect();
+    assert_eq!(procs.len(), want.len(), "harness: stimulus names processors of the instance");
+    procs.sort_by_key(|p| std::cmp::Reverse(p.id()));
+    if variant == 2 {
+        let mut by_region: BTreeMap<u32, Vec<_>> = BTreeMap::new();
+        for p in &procs {
+            by_region.entry(p.memory_region_id()).or_default().push(p.clone());
+        }
+        let r = by_region.iter().find(|(_, v)| v.len() >= 2).map(|(r, _)| *r).unwrap_or_else(|| *by_region.keys().next().unwrap());
+        let mine = by_region.remove(&r).unwrap();
+        let mut v = vec![mine[0].clone()];
+        v.extend(by_region.into_values().flatten());
+        v.extend(mine.into_iter().skip(1));
+        procs = v;
+    }
+    all.to_builder().take_exact(nonempty::NonEmpty::from_vec(procs).expect("non-empty set"))
 }
 
 // ------------------------------------------------------------------------------------------------ actor threads
